@@ -68,6 +68,7 @@ def make_config(name, log=None):
         "BioConsert[Borda,Copeland]": lambda: BioConsert([rec(BordaCount()), rec(CopelandMethod())]),
         "BioConsert[PickAPerm,Borda]": lambda: BioConsert([rec(PickAPerm()), rec(BordaCount())]),
         "BioCo": lambda: BioCo(),
+        "BioConsert[Borda,Borda(bucket_id)]": lambda: BioConsert([rec(BordaCount()), rec(BordaCount(use_bucket_id=True))]),
         # nested starters (not wrapped: the library may look at their class)
         "BioConsert[BioCo]": lambda: BioConsert([BioCo()]),
         "BioConsert[Copeland,BioCo]": lambda: BioConsert([CopelandMethod(), BioCo()]),
@@ -344,6 +345,15 @@ def unified(lv, present):
     return tuple((lv[e] if lv[e] != -1 else mx + 1) if e in present else -1 for e in range(len(lv)))
 
 
+def det_starters(cfg):
+    from corankco.algorithms.borda.borda import BordaCount
+    from corankco.algorithms.copeland.copeland import CopelandMethod
+    from corankco.algorithms.pickaperm.pickaperm import PickAPerm
+    B, Bb, C, P = ("BordaCount", BordaCount), ("BordaCount(bucket ids)", lambda: BordaCount(use_bucket_id=True)), ("CopelandMethod", CopelandMethod), ("PickAPerm", PickAPerm)
+    return {"BioCo": [B], "BioConsert[Copeland]": [C], "BioConsert[Borda]": [B], "BioConsert[PickAPerm]": [P], "BioConsert[Borda,Copeland]": [B, C],
+            "BioConsert[PickAPerm,Borda]": [P, B], "BioConsert[Copeland,PickAPerm]": [C, P], "BioConsert[Borda,Borda(bucket_id)]": [B, Bb]}.get(cfg)
+
+
 def chk_starts(o, out):
     """C09: result never worse than any starting point; all returned rankings share the best score"""
     if o.exc is not None or o.rankings is None:
@@ -356,11 +366,22 @@ def chk_starts(o, out):
         if not prove(o, score_term(o, lv) == s0, "returned rankings do not share one score", "starts-share", out):
             return
     starts = []
-    if o.cfg == "BioCo":
-        # BioCo builds its own BordaCount starter: its consensus is recomputed on this path (deterministic algorithm)
-        from corankco.algorithms.borda.borda import BordaCount
-        c = BordaCount().compute_consensus_rankings(o.ds, o.sc, True)
-        starts.append(("BordaCount's consensus", shapes.ranking_levels(c.consensus_rankings[0], o.names)))
+    det = det_starters(o.cfg)
+    if det is not None:
+        # deterministic starters: the consensus of every starter the caller LISTED is recomputed on this path, independently
+        # of what the run recorded (a starter the library silently dropped is still a starting point of the property)
+        for nm, factory in det:
+            try:
+                c = factory().compute_consensus_rankings(o.ds, o.sc, True)
+            except harness.HarnessError:
+                raise
+            except harness.Inconclusive:
+                raise
+            except Exception as e:  # noqa
+                if type(e).__name__ in REFUSALS:
+                    continue
+                raise
+            starts.append((f"{nm}'s consensus", shapes.ranking_levels(c.consensus_rankings[0], o.names)))
     elif o.log:
         for nm, c in o.log:
             try:
@@ -555,10 +576,16 @@ def replay(p):
         if max(scs) - min(scs) > 1e-9:
             return True, f"returned rankings have different scores {scs}"
         starts = []
-        if p["config"] == "BioCo":
-            from corankco.algorithms.borda.borda import BordaCount
-            c = BordaCount().compute_consensus_rankings(ds, sc, True)
-            starts.append(("BordaCount", cscore(c.consensus_rankings[0], names, lvs, sc), c.consensus_rankings[0]))
+        det = det_starters(p["config"])
+        if det is not None:
+            for nm, factory in det:
+                try:
+                    c = factory().compute_consensus_rankings(ds, sc, True)
+                except Exception as e:  # noqa
+                    if type(e).__name__ in REFUSALS:
+                        continue
+                    raise
+                starts.append((nm, cscore(c.consensus_rankings[0], names, lvs, sc), c.consensus_rankings[0]))
         elif log:
             for nm, c in log:
                 starts.append((nm, cscore(c.consensus_rankings[0], names, lvs, sc), c.consensus_rankings[0]))
@@ -715,7 +742,11 @@ def two_calls_items(run, cfgs, checks, per_cfg=2):
     pool = dataset_pool(3, 2)
     tc = []
     for cfg in cfgs:
-        for i in range(per_cfg if cfg not in HEAVY else 1):
+        if cfg in HEAVY:
+            # local-search configurations: the product of the two runs' paths is large; two-element datasets only
+            tc.append((cfg, ((0, 1), (0, 1)), ((1, 0), (0, 0)), [1, 2], "B", checks))
+            continue
+        for i in range(per_cfg):
             a, b = rnd.choice(pool), rnd.choice(pool)
             tc.append((cfg, a, b, NAMINGS[3][i % 3], "AB"[i % 2], checks))
         # directed: a strict order first, then a dataset whose consensus has ties / another order
@@ -814,7 +845,8 @@ def jit_conformance(run, cfgs, judge, writings=None, shapes_=None):
 HEAVY = {"BioConsert", "BioConsert[Copeland]", "BioConsert[Borda]", "BioConsert[PickAPerm]", "BioConsert[KwikSort]", "BioConsert[Borda,Copeland]",
          "BioConsert[PickAPerm,Borda]",
          "BioConsert[KwikSort,Borda]", "BioConsert[Copeland,PickAPerm]", "BioCo", "ParCons(1,BioConsert)",
-         "BioConsert[BioCo]", "BioConsert[Copeland,BioCo]", "BioConsert[BioConsert[PickAPerm]]", "ParCons(1,BioConsert[BioCo])"}
+         "BioConsert[BioCo]", "BioConsert[Copeland,BioCo]", "BioConsert[BioConsert[PickAPerm]]", "ParCons(1,BioConsert[BioCo])",
+         "BioConsert[Borda,Borda(bucket_id)]"}
 NAMINGS = {1: [[5], ["x"]], 2: [[1, 2], [2, 1], ["b", "a"]], 3: [[1, 2, 3], [3, 1, 2], ["b", "a", "c"]],
            4: [[1, 2, 3, 4], [4, 2, 3, 1], ["d", "a", "c", "b"], ["1", "2", "3", "A"]]}
 
